@@ -151,7 +151,8 @@ class ByContract:
     spec: name of a spec function; the call returns spec(*args) (a pure function of the arguments);
     ret: Kind of the result; raises: exception class names the callee may raise (each forks a path)."""
 
-    def __init__(self, ret=None, spec=None, post=None, raises=(), pure=True, event=None, pre=None, havoc=(), raise_post=None):
+    def __init__(self, ret=None, spec=None, post=None, raises=(), pure=True, event=None, pre=None, havoc=(), raise_post=None, assumed_form=None):
+        self.assumed_form = assumed_form    # text: the form used at this call site is NOT the one verified under the callee's own id (listed as assumed)
         self.raise_post = raise_post        # clause f(*args, raised) assumed on the raising paths of the callee
         self.ret = ret
         self.spec = spec
